@@ -1,5 +1,6 @@
 pub mod abi;
 pub mod gateway;
+pub mod gas;
 
 use crate::rng::Rng;
 use crate::Sink;
@@ -9,6 +10,7 @@ pub fn generate(prop: &str, rng: &mut Rng, n: usize, sink: &mut Sink) {
         "C06" => abi::gen_c06(rng, n, sink),
         "C07" => abi::gen_c07(rng, n, sink),
         "C01" | "C02" | "C03" => gateway::gen(rng, n, sink, prop),
+        "C15" => gas::gen(rng, n, sink),
         _ => panic!("no generator for {prop}"),
     }
 }
